@@ -403,7 +403,9 @@ def r13_nodata(repo, sink):
                            ok="only 'no data yet' is swallowed (retry later)",
                            bad=f"connect helper swallows {sorted(names)}: a real error is turned into 'retry later' and connect() never reports it",
                            func=fn.name)
-    sink.floor("R13", "swallowing handlers in connect_helper", n_try, 4)
+    # (how many handlers there are is a matter of style - one shared retry helper is as good as four inline blocks; that every
+    #  kind of failed attempt is tolerated is decided by the scripted peers of R11)
+    sink.floor("R13", "swallowing handlers in connect_helper", n_try, 1)
     # (b) side-effect freedom of failing exchanges
     paths = [
         ("Output", "get_info", "method"), ("Output", "info", "getter"), ("Output", "get_data", "method"),
